@@ -444,4 +444,68 @@ theorem empty_tests (us : List Nat) :
       · have : cs ≠ [] := by intro h; rw [h] at hne; cases hne
         simp [this]
 
+/-! ### the two segment decoders agree -/
+
+theorem specSeg_some (seg : BytesN) (sx units : List Nat) (rest : List Bool)
+    (h : seg.mapM sextet? = some sx)
+    (hu : unitsOf (sx.flatMap (bitsOf 6)).length (sx.flatMap (bitsOf 6)) = (units, rest)) :
+    specSeg seg =
+      if rest.length ≥ 6 then none else if units.isEmpty then none else chk (scalarsOf units) := by
+  unfold specSeg
+  rw [h]
+  simp only [Option.bind_eq_bind, Option.bind_some]
+  rw [hu]
+  rfl
+
+theorem b64val_61 : b64val 61 = none := by decide
+
+theorem specSeg_eq_decodeSeg (seg : BytesN) : specSeg seg = decodeSeg seg := by
+  have hf : sextet? = b64val := funext sextet_eq
+  cases hm : seg.mapM b64val with
+  | none =>
+    obtain ⟨c, hc, hv⟩ := mapM_none seg hm
+    rw [decodeSeg_bad hc hv]
+    unfold specSeg
+    rw [hf, hm]
+    rfl
+  | some sx =>
+    obtain ⟨hall, hsx⟩ := mapM_some seg sx hm
+    have hlt : ∀ s ∈ sx, s < 64 := fun s hs => by
+      obtain ⟨c, hc⟩ := hsx s hs
+      exact b64val_some_lt hc
+    have hlast : ¬ seg.getLast? = some 61 := fun h =>
+      hall 61 (List.mem_of_getLast? h) b64val_61
+    have hd : decodeSeg seg = (grp sx).bind (fun b => (utf16dec b).bind
+        (fun us => if us.isEmpty then none else some us)) := by
+      unfold decodeSeg
+      rw [if_neg hlast, b64dec_eq_grp, hm]
+      rfl
+    rw [hd]
+    cases hu : unitsOf (sx.flatMap (bitsOf 6)).length (sx.flatMap (bitsOf 6)) with
+    | mk units rest =>
+      rw [specSeg_some seg sx units rest (by rw [hf]; exact hm) hu]
+      have hrl := unitsOf_rest_length _ (sx.flatMap (bitsOf 6)) (Nat.le_refl _)
+      rw [hu] at hrl
+      simp only [flatMap6_length] at hrl
+      cases hg : grp sx with
+      | none =>
+        have h4 := grp_none sx hg
+        have : rest.length ≥ 6 := by omega
+        simp only [this, if_true, Option.bind_none]
+      | some bs =>
+        obtain ⟨hb, left, hl, he⟩ := grp_some sx bs hlt hg
+        obtain ⟨rest', hu', hrl'⟩ := unitsOf_bytes (sx.flatMap (bitsOf 6)).length bs left hb
+          (by omega) (by rw [he, List.length_append, flatMap8_length]; omega)
+        rw [← he, hu] at hu'
+        simp only [Prod.mk.injEq] at hu'
+        obtain ⟨hunits, hrest⟩ := hu'
+        subst hunits hrest
+        simp only [Option.bind_some]
+        by_cases hpar : bs.length % 2 = 1
+        · have : rest.length ≥ 6 := by omega
+          simp only [this, if_true, utf16dec_odd bs hpar, Option.bind_none]
+        · have hpar' : bs.length % 2 = 0 := by omega
+          have : ¬ rest.length ≥ 6 := by omega
+          rw [if_neg this, utf16dec_even bs hpar', empty_tests]
+
 end GoImap.Utf7Lemmas
